@@ -258,8 +258,8 @@ macro_rules! c08_nearest_octave {
 // C09  hysteresis
 // =====================================================================
 
-// @family prop=C09 name=c09_hysteresis_step macro=c09_hysteresis_step n=11 quick=0,1,9,10 seeded=1 thorough=all timeout=2400 unwindset=find_nearest_note:4,13
-// @about octave slice k of the INPUT (k <= v < k+1; slice 0 also v < 0, -inf, NaN; slice 10: v >= 10 incl. +inf): one conversion from any Inv_q state with history (any scale, cached note 0..=131), any v in the slice: if the cached note is still allowed and v lies strictly inside its bucket widened by 0.1 semitone each side (edges in exact f64 arithmetic, +-1 microvolt don't-care band), the note is kept; if v is outside the window by more than the band, or the cached note is no longer allowed, note, stairstep and fraction equal those of a fresh quantizer with the same scale on the same input (differential, second real instance). quick: octaves 0, 1, 9, 10 + one VERIF_SEED-chosen; thorough: all 11
+// @family prop=C09 name=c09_hysteresis_step macro=c09_hysteresis_step n=11 quick=0,1,2,3,4,5,6,7,8,9,10 thorough=all timeout=2400 unwindset=find_nearest_note:4,13
+// @about octave slice k of the INPUT (k <= v < k+1; slice 0 also v < 0, -inf, NaN; slice 10: v >= 10 incl. +inf): one conversion from any Inv_q state with history (any scale, cached note 0..=131), any v in the slice: if the cached note is still allowed and v lies strictly inside its bucket widened by 0.1 semitone each side (edges in exact f64 arithmetic, +-1 microvolt don't-care band), the note is kept; if v is outside the window by more than the band, or the cached note is no longer allowed, note, stairstep and fraction equal those of a fresh quantizer with the same scale on the same input (differential, second real instance). both tiers: all 11 octaves
 macro_rules! c09_hysteresis_step {
     ($name:ident, $k:expr) => {
         #[kani::proof]
@@ -305,7 +305,7 @@ macro_rules! c09_hysteresis_step {
     };
 }
 
-// @family prop=C09 name=c09_window_survives_scale_edits macro=c09_window_survives_scale_edits n=11 quick=0,5 seeded=1 thorough=all timeout=2400 unwindset=find_nearest_note:4,13
+// @family prop=C09 name=c09_window_survives_scale_edits macro=c09_window_survives_scale_edits n=11 quick=0,5,10 seeded=1 thorough=all timeout=2400 unwindset=find_nearest_note:4,13
 // @about public API only, slice k = octave of the FIRST input: any scale; convert(v1) with v1 in octave k; then an arbitrary scale edit -- forbid(any slice of 0..=12 notes) followed by allow(any slice of 0..=12 notes), incl. redundant edits -- then convert(v2): if the note reported first is still allowed after the edit and v2 lies strictly inside its bucket widened by 0.1 semitone each side (2 microvolts inside the edges), the second conversion reports the same note and stairstep: a scale edit that leaves the current note allowed does not reset the hysteresis
 macro_rules! c09_window_survives_scale_edits {
     ($name:ident, $k:expr) => {
@@ -350,7 +350,7 @@ macro_rules! c09_window_survives_scale_edits {
 // C19  record consistency
 // =====================================================================
 
-// @family prop=C19 name=c19_record_consistency macro=c19_record_consistency n=11 quick=0,1,9,10 seeded=1 thorough=all timeout=2400 unwindset=find_nearest_note:4,13
+// @family prop=C19 name=c19_record_consistency macro=c19_record_consistency n=11 quick=0,1,2,3,4,5,6,7,8,9,10 thorough=all timeout=2400 unwindset=find_nearest_note:4,13
 // @about octave slice k of the input (as c09_hysteresis_step): one conversion from any Inv_q state (with or without history), any scale, any f32 v in the slice: stairstep == note/12 (f32 division, exactly); for finite v in [0,10]: |stairstep + fraction - v| <= 2 ulp(v) (ulp of 1.0 below 1 V); outside [0,10]: stairstep + fraction reproduces v or its clamped value within the same tolerance; chromatic scale without history: 0 <= fraction < 1 semitone (+-10 microvolts, the quantizer's stated tie tolerance); whenever the record differs from the history-free record of a second real quantizer (i.e. the hysteresis window kept the previous note): the kept note is the cached one and -0.1 <= fraction <= 1.1 semitones (+-10 microvolts)
 macro_rules! c19_record_consistency {
     ($name:ident, $k:expr) => {
